@@ -108,6 +108,25 @@ func main() {
 			}
 		}
 		changed := false
+		if hooked {
+			// func init() bodies become callable: a state reset re-runs them after re-initialising the
+			// package-level variables, exactly as a fresh process does (variables they set - feature
+			// probes, routine tables - would otherwise read as zero after a reset)
+			var added []string
+			for _, d := range f.Decls {
+				if fd, ok := d.(*ast.FuncDecl); ok && fd.Recv == nil && fd.Name.Name == "init" && fd.Body != nil {
+					initCounter++
+					name := fmt.Sprintf("verifInit%03d", initCounter)
+					fd.Name.Name = name
+					added = append(added, name)
+					pkgInits[rel] = append(pkgInits[rel], name)
+				}
+			}
+			if len(added) > 0 {
+				changed = true
+				initShims[path] = added
+			}
+		}
 		for _, imp := range f.Imports {
 			p, _ := strconv.Unquote(imp.Path.Value)
 			if hooked {
@@ -147,6 +166,9 @@ func main() {
 			}
 		} else {
 			buf.Write(src)
+		}
+		for _, name := range initShims[path] {
+			fmt.Fprintf(&buf, "\nfunc init() { %s() }\n", name)
 		}
 		// the library's direct line to the runtime allocator: memory it asks for WITHOUT zeroing is
 		// filled with garbage (what recycled memory holds is an environment answer the harness owns)
@@ -258,6 +280,12 @@ func collectVars(fset *token.FileSet, f *ast.File, rel string, src []byte) []pkg
 
 var dirtyMalloc bool
 
+var (
+	initCounter int
+	pkgInits    = map[string][]string{} // package -> renamed init functions in build order
+	initShims   = map[string][]string{} // file -> its renamed init functions
+)
+
 var mallocRe = regexp.MustCompile(`//go:linkname mallocgc runtime\.mallocgc\nfunc mallocgc\(size uintptr, typ uintptr, needzero bool\) unsafe\.Pointer\n`)
 
 const mallocShim = `//go:linkname verifRuntimeMallocgc runtime.mallocgc
@@ -325,6 +353,10 @@ func genHook(pkg string, all []pkgVar) ([]byte, []pkgVar) {
 		if !isDescMap(v) {
 			light.Write(body.Bytes()[before:])
 		}
+	}
+	for _, name := range pkgInits[pkg] {
+		fmt.Fprintf(&body, "\t%s()\n", name)
+		fmt.Fprintf(&light, "\t%s()\n", name)
 	}
 	if pkg == "internal/reflect" {
 		light.WriteString("\tdefs.VerifReset()\n")
